@@ -18,6 +18,8 @@ CHECKS = {
         'level_text': 'path exploration + z3 decide that ParseXMLResponse returns only an assertion of the document that is covered by a signature of a trusted key (its own, or the Response\'s) and never when the Response carries a signature of an untrusted key; counterexamples replayed natively on real signed XML.',
         'level_note': FLOW_NOTE + 'Harness_C01_trust adds the fingerprint and pinned-certificate trust configurations and four KeyInfo layouts per signature (signer certificate, none, signer+other, other+signer; goxmldsig: the first KeyInfo certificate must be a root and is the verification key). Outside: XML-level wrapping that defeats goxmldsig itself, encrypted assertions on the SP side.',
         'harnesses': [
+            {'name': 'Harness_C01_encrypted', 'pkg': 'saml', 'replay': 'direct', 'must_reach': ['accepted', 'rejected', 'accepted-by-inner-signature', 'accepted-by-response-signature'], 'validate_labels': ['accepted-by-inner-signature', 'accepted-by-response-signature', 'rejected'], 'label_prefix': 'C01', 'opts': {'K': 1}},
+            {'name': 'Harness_C04_artifact', 'pkg': 'saml', 'replay': 'direct', 'must_reach': ['accepted', 'rejected', 'accepted-by-artifact-signature'], 'validate_labels': ['accepted-by-artifact-signature'], 'label_prefix': 'C01', 'opts': {'K': 1}},
             {'name': 'Harness_C01_flow', 'pkg': 'saml', 'replay': 'direct', 'must_reach': ['accepted', 'rejected', 'accepted-by-response-signature', 'accepted-by-assertion-signature'],
              'opts': {'time_res': 1000000}, 'quick': {'K': 1, 'params': {'assertions.max': 2}}, 'thorough': {'K': 1, 'params': {'assertions.max': 3}}},
             {'name': 'Harness_C01_trust', 'pkg': 'saml', 'replay': 'direct', 'must_reach': ['accepted', 'rejected', 'accepted-by-fingerprint', 'accepted-by-pinned-certificate'],
@@ -28,6 +30,7 @@ CHECKS = {
         'level_text': 'z3 decides, for all instants and tolerances at once, that acceptance implies every documented window and that strictly-inside implies acceptance, on the SSA of the real validateAssertion; counterexamples replayed natively.',
         'level_note': SP_ASSERTION_NOTE + FLOW_NOTE + 'Response-level IssueInstant and lexical time forms are covered by the flow harness where registered; time.Parse is library code (outside).',
         'harnesses': [
+            {'name': 'Harness_C04_artifact', 'pkg': 'saml', 'replay': 'direct', 'must_reach': ['accepted', 'rejected'], 'validate_labels': ['accepted'], 'label_prefix': 'C02', 'opts': {'params': {'artifact.layouts': 0}, 'K': 1}},
             {'name': 'Harness_C02_flow', 'pkg': 'saml', 'replay': 'direct', 'must_reach': ['accepted', 'rejected'],
              'opts': {'time_res': 1000000}, 'quick': {'K': 1}, 'thorough': {'K': 1}},
             {'name': 'Harness_C02_assertion', 'pkg': 'saml', 'replay': 'direct', 'must_reach': ['accepted', 'rejected', 'accepted-two-confirmations'],
@@ -38,6 +41,7 @@ CHECKS = {
         'level_text': 'z3 decides that acceptance implies issuer = IdP entity ID, every Recipient = ACS URL and the audience rule (entity-ID fallback, hook) for all strings at once; replayed natively.',
         'level_note': SP_ASSERTION_NOTE + FLOW_NOTE,
         'harnesses': [
+            {'name': 'Harness_C04_artifact', 'pkg': 'saml', 'replay': 'direct', 'must_reach': ['accepted', 'rejected'], 'validate_labels': ['accepted'], 'label_prefix': 'C03', 'opts': {'params': {'artifact.layouts': 0}, 'K': 1}},
             {'name': 'Harness_C03_flow', 'pkg': 'saml', 'replay': 'direct', 'must_reach': ['accepted', 'rejected', 'accepted-signed-response'],
              'opts': {'time_res': 1000000}, 'quick': {'K': 1}, 'thorough': {'K': 1}},
             {'name': 'Harness_C03_assertion', 'pkg': 'saml', 'replay': 'direct', 'must_reach': ['accepted', 'rejected', 'accepted-with-audience'],
@@ -48,6 +52,8 @@ CHECKS = {
         'level_text': 'z3 decides that, without IdP-initiated login, acceptance implies every confirmation InResponseTo is one of the outstanding IDs (and that some ID is outstanding); replayed natively.',
         'level_note': SP_ASSERTION_NOTE + FLOW_NOTE,
         'harnesses': [
+            {'name': 'Harness_C09_artifact_http', 'pkg': 'saml', 'replay': 'direct', 'must_reach': ['accepted', 'rejected'], 'validate_labels': ['accepted', 'rejected'], 'label_prefix': 'C04', 'opts': {'K': 1}},
+            {'name': 'Harness_C04_artifact', 'pkg': 'saml', 'replay': 'direct', 'must_reach': ['accepted', 'rejected', 'accepted-by-artifact-signature'], 'validate_labels': ['accepted-by-artifact-signature'], 'label_prefix': 'C04', 'opts': {'K': 1}},
             {'name': 'Harness_C04_flow', 'pkg': 'saml', 'replay': 'direct', 'must_reach': ['accepted', 'rejected', 'accepted-with-hook'],
              'opts': {'time_res': 1000000}, 'quick': {'K': 1}, 'thorough': {'K': 1}},
             {'name': 'Harness_C04_assertion', 'pkg': 'saml', 'replay': 'direct', 'must_reach': ['accepted', 'rejected', 'accepted-with-confirmation'],
@@ -58,6 +64,9 @@ CHECKS = {
         'level_text': 'every path of the encoded message-consuming functions is explored with all optional elements nil-able; a path ending in a Go panic is a violation; replayed natively.',
         'level_note': SP_ASSERTION_NOTE + FLOW_NOTE,
         'harnesses': [
+            {'name': 'Harness_C01_encrypted', 'pkg': 'saml', 'replay': 'direct', 'must_reach': ['accepted', 'rejected', 'accepted-by-inner-signature', 'accepted-by-response-signature'], 'validate_labels': ['accepted-by-inner-signature', 'accepted-by-response-signature', 'rejected'], 'label_prefix': 'C09', 'opts': {'K': 1, 'panic_is_violation': True}},
+            {'name': 'Harness_C09_artifact_http', 'pkg': 'saml', 'replay': 'direct', 'must_reach': ['accepted', 'rejected'], 'validate_labels': ['accepted', 'rejected'], 'label_prefix': 'C09', 'opts': {'K': 1, 'panic_is_violation': True}},
+            {'name': 'Harness_C04_artifact', 'pkg': 'saml', 'replay': 'direct', 'must_reach': ['accepted', 'rejected'], 'validate_labels': ['accepted'], 'label_prefix': 'C09', 'opts': {'params': {'artifact.layouts': 0}, 'K': 1, 'panic_is_violation': True}},
             {'name': 'Harness_C09_flow', 'pkg': 'saml', 'replay': 'direct', 'must_reach': ['returned'],
              'opts': {'time_res': 1000000, 'panic_is_violation': True}, 'quick': {'K': 1}, 'thorough': {'K': 1}},
             {'name': 'Harness_C09_assertion', 'pkg': 'saml', 'replay': 'direct', 'must_reach': ['returned'],
@@ -129,6 +138,9 @@ CHECKS = {
             {'name': 'Harness_C20_ops', 'pkg': 'samlidp', 'replay': 'symbolic', 'mode': 'interleave', 'must_reach': ['op-done'],
              'opts': {'trace_shared': True, 'no_sign_err': True, 'K': 1}, 'threads': {'quick': 2, 'thorough': 3}, 'budget_s': {'quick': 600, 'thorough': 3000}},
             {'name': 'Harness_C20_seq', 'pkg': 'samlidp', 'replay': 'direct', 'must_reach': ['sequential']},
+            {'name': 'Harness_C20_linearizable', 'pkg': 'samlidp', 'replay': 'stress', 'must_reach': ['quiescent'], 'validate_reach': False,
+             'quick': {'params': {'lin.threads': 2, 'lin.ops.0': 2, 'lin.ops.1': 1}},
+             'thorough': {'params': {'lin.threads': 3, 'lin.ops.0': 2, 'lin.ops.1': 1, 'lin.ops.2': 1}}, 'budget_s': {'quick': 600, 'thorough': 3000}},
         ],
     },
     'C18': {
@@ -209,6 +221,7 @@ CHECKS = {
         'level_text': 'z3/path enumeration decides, for every layout of <=2 (quick) / <=3 (thorough) key descriptors x <=2 certificates (Use encryption/signing/omitted/other, arbitrary/empty/real certificate texts), that the encryption-certificate selector reports "no key" exactly when none is advertised, never panics and never turns a bad certificate into "no key"; replayed natively with real certificates.',
         'level_note': 'real getSPEncryptionCert executed from SSA; base64 decode and x509.ParseCertificate are contract stubs (fail or opaque certificate; exact on the two real test certificates); at most one descriptor with use="encryption" (several are ambiguous: outside). Harness_C08_nodowngrade executes the real MakeAssertionEl, xmlenc RSA.Encrypt / CBC.Encrypt and Decrypt with uninterpreted crypto (inverse law under equal key/IV/hash): six metadata key layouts (none, encryption certificate, undecodable certificate, signing-only, use omitted, encryption certificate with one of three EncryptionMethod lists). Outside: confidentiality of AES/RSA themselves; that no user string appears elsewhere in the form is argued structurally.',
         'harnesses': [
+            {'name': 'Harness_C01_encrypted', 'pkg': 'saml', 'replay': 'direct', 'must_reach': ['accepted', 'rejected', 'accepted-by-inner-signature', 'accepted-by-response-signature'], 'validate_labels': ['accepted-by-inner-signature', 'accepted-by-response-signature', 'rejected'], 'label_prefix': 'C08', 'opts': {'K': 1}},
             {'name': 'Harness_C08_certselect', 'pkg': 'saml', 'replay': 'direct', 'must_reach': ['returned', 'advertised', 'nothing-advertised', 'real-cert-selected'],
              'opts': {'panic_is_violation': True}, 'validate_labels': ['nothing-advertised', 'real-cert-selected'],
              'quick': {'params': {'kd.max': 2}}, 'thorough': {'params': {'kd.max': 3}}, 'budget_s': {'quick': 600, 'thorough': 3000}},
